@@ -557,6 +557,45 @@ def gen_inet(rng, n4, n6):
     for text in ("fe80::1", "::1", "ffff:ffff:ffff:ffff:ffff:ffff:ffff:ffff", "::ffff:1.2.3.4", "1.2.3.4", "127.0.0.1", "fe80::1%lo"):
         for scope in (0, 1, 2, 4294967295):
             ips_op(text, rng.choice(PORTS), 0, scope)
+    # inet_ntop / inet_pton(AF_INET6) themselves against the Gallina RFC 5952 printer / reader (C20_Ip6Model)
+    def rand_addr6():
+        g = [rng.choice([0, 0, 0, 0, 1, 0xffff, 0x0db8, 0x2001, 0x00ab, 0x0a00, rng.randrange(65536)]) for _ in range(8)]
+        r = rng.random()
+        if r < 0.2:
+            g[:5] = [0] * 5
+            g[5] = rng.choice([0, 0xffff, 1])
+        elif r < 0.3:
+            g = [0] * 8
+            g[rng.randrange(8)] = rng.choice([0, 1, 2, 0xffff])
+        elif r < 0.4:
+            i, j = sorted(rng.sample(range(9), 2))
+            g = [rng.randrange(1, 65536) for _ in range(8)]
+            g[i:j] = [0] * (j - i)
+        return b"".join(x.to_bytes(2, "big") for x in g)
+    texts6 = []
+    for _ in range(n6 * 6):
+        a = rand_addr6()
+        ops.append("N6 " + a.hex())
+        t = socket.inet_ntop(socket.AF_INET6, a)
+        texts6 += [t, t.upper()]
+        groups = [int.from_bytes(a[2 * i:2 * i + 2], "big") for i in range(8)]
+        if rng.random() < 0.3:
+            texts6 += ip6_forms(rng, groups)
+    for a in (bytes(16), bytes(15) + b"\1", b"\xff" * 16, bytes(10) + b"\xff\xff\x7f\0\0\1", bytes(12) + b"\1\2\3\4", bytes(14) + b"\0\2",
+              bytes(2) + b"\0\1" + bytes(12), b"\0\1" + bytes(4) + b"\0\1" + bytes(8), b"\0\1" + bytes(6) + b"\0\1" + bytes(6)):
+        ops.append("N6 " + a.hex())
+    bad6 = ["", ":", "::", ":::", "1", "1:", ":1", "1::", "::1", "1:2:3:4:5:6:7", "1:2:3:4:5:6:7:8", "1:2:3:4:5:6:7:8:9", "1::2::3", "12345::", "g::1",
+            "::1.2.3", "::1.2.3.256", "1:2:3:4:5:6:7::8", "1:2:3:4:5:6:7::", "::2:3:4:5:6:7:8", "1:2:3:4:5:6:7:8::", "::ffff:1.2.3.4", "::1.2.3.4",
+            "fe80::1%lo", "[::1]", "1:2:3:4:5:6:1.2.3.4", "1:2:3:4:5:6:7:1.2.3.4", "1:2:3:4:5:1.2.3.4", "1::1.2.3.4", "1.2.3.4", "1.2.3.4::",
+            "::1.2.3.4:5", "0:0:0:0:0:0:0:0", "00:0::", "0000::", "00000::", "::01.2.3.4", "::1.02.3.4", "1:2:3:4:5:6::1.2.3.4", "1:2:3:4:5::1.2.3.4",
+            "::ffff:1.2.3.4.5", "::ffff:1.2.3", "1:::2", "::1:", "1::2:", "a:B:c:D::", "::fFfF:255.255.255.255", " ::1", "::1 ", "::12.1.1.1", "::1234.1.1.1"]
+    for _ in range(n6 * 4):
+        t = rng.choice(texts6)
+        i = rng.randrange(len(t) + 1)
+        bad6.append(t[:i] + rng.choice([":", "::", "0", "f", ".", "g", "", ""]) + t[i + rng.choice([0, 0, 1]):])
+    for t in texts6 + bad6:
+        if "\0" not in t:
+            ops.append("P6 " + (t.encode("latin-1").hex() or "-"))
     for p in PORTS:
         for lo in (0, 1):
             for v6 in (0, 1):
@@ -687,6 +726,34 @@ def oracle_case(c, lines, V, tables):
                 V.fail(c, oi, "hostToNetwork%d(%d): memory %s, back %s; big-endian is %s, htobe says %s" % (8 * kk, x, f[1], f[2:], e.hex(), g))
         elif k in ("IP", "IPP", "IPS"):
             oracle_IP(c, oi, w, ln, V)
+        elif k == "N6":
+            a = bytes.fromhex(w[1])
+            text = " ".join(f[1:])
+            try:
+                back = socket.inet_pton(socket.AF_INET6, text)
+            except (OSError, ValueError):
+                back = None
+            comp = ipaddress.IPv6Address(a).compressed
+            if back != a:
+                V.fail(c, oi, "inet_ntop(AF_INET6, %s) = %r does not read back through inet_pton" % (a.hex(), text))
+            elif "." not in text and text != comp:
+                V.fail(c, oi, "inet_ntop(AF_INET6, %s) = %r, RFC 5952 says %r" % (a.hex(), text, comp))
+            elif len(text) > 45:
+                V.fail(c, oi, "inet_ntop text longer than INET6_ADDRSTRLEN - 1")
+            else:
+                V.note("ipv6-text-ok")
+        elif k == "P6":
+            text = (bytes.fromhex(w[1]) if w[1] != "-" else b"").decode("latin-1")
+            try:
+                exp = ipaddress.IPv6Address(text).packed.hex() if "%" not in text else None
+            except ValueError:
+                exp = None
+            got = f[1] if len(f) > 1 and f[1] != "none" else None
+            V.note("ipv6-parse-accepted" if got else "ipv6-parse-rejected")
+            if got is not None and exp is not None and got != exp:
+                V.fail(c, oi, "inet_pton(AF_INET6, %r) = %s, RFC 4291 reading is %s" % (text, got, exp))
+            elif (got is None) != (exp is None):
+                V.note("ipv6-parse: glibc and Python ipaddress disagree on acceptance (both are platform readers; the model is compared with glibc)")
         elif k == "P4":
             text = bytes.fromhex(w[1]) if w[1] != "-" else b""
             try:
@@ -1119,7 +1186,7 @@ def run(chk, replay=None):
                 sigs.add(("TA", l[:48]))
             elif w[0] == "U":
                 sigs.add(("U", w[2], w[3]))
-            elif w[0] in ("IP", "IPP", "IPS", "P4", "F", "BE"):
+            elif w[0] in ("IP", "IPP", "IPS", "P4", "P6", "N6", "F", "BE"):
                 sigs.add((w[0], l[:40]))
             elif w[0].startswith("TS"):
                 sigs.add(("TS", len(l)))
